@@ -15,8 +15,6 @@ mod wide;
 #[cfg(kani)]
 pub mod c04_swap;
 #[cfg(kani)]
-mod probe;
-#[cfg(kani)]
 pub mod c06_liquidity;
 #[cfg(kani)]
 mod c45_glv;
